@@ -1,6 +1,7 @@
 package main
 
 import (
+	"digverif/vt"
 	"fmt"
 	"regexp"
 	"sort"
@@ -37,7 +38,7 @@ func dotGroupID(k Key) string {
 
 func ctorDotName(f *Fn) string {
 	if f.LocPC > 0 {
-		return fmt.Sprintf("Loc%d", f.LocPC-1)
+		return vt.LocNames[f.LocPC-1]
 	}
 	if f.Pool > 0 {
 		return fmt.Sprintf("P%04d", f.Pool-1)
